@@ -234,7 +234,7 @@ LEADS = ["", "", " ", "    ", "\t"]
 EXOTIC_WS = ["\x0b", "\x0c", "\x1c", "\x1d", "\x1e", "\x85", "\u2028", "\u2029"]
 
 
-def secret_line(r, ctx, secrets, kinds=("keep", "scrub"), ident=None, templates=None):
+def secret_line(r, ctx, secrets, kinds=("keep", "scrub"), ident=None, templates=None, mix_slots=False):
     """A secret-bearing line built from a template; returns None when no template fits."""
     ids = sorted(secrets) if ident is None else [ident]
     for _ in range(30):
@@ -258,7 +258,11 @@ def secret_line(r, ctx, secrets, kinds=("keep", "scrub"), ident=None, templates=
                 v = r.choice(ctx["a4"])
                 segs.append(["a4", G.tok4(r, v, zeros=False), {"v": v}])
             else:
-                i = r.choice(cand) if (first or ident is None) else r.choice(cand)
+                if not first and mix_slots:
+                    allc = [j for j in sorted(secrets) if slot_class(secrets[j]["cls"]) in allowed]
+                    i = r.choice(allc or cand)
+                else:
+                    i = r.choice(cand)
                 first = False
                 meta = {"id": int(i), "kind": kind}
                 if secrets[i]["cls"].startswith("j9p"):
